@@ -24,12 +24,20 @@ CHECKS = {
          "independent decoders written from the format documents are trusted; quiescence is exact (scheduler drain)", "deterministic simulation: independent decoder cross-check at quiescent points"),
  "C17": ("exploration", "in-family part only: at every reopen and kill-restart of real histories the MANIFEST named by CURRENT is decoded and replayed by an independent decoder/builder and compared with the reported layout; every edit is re-encoded and must be byte-identical; counters must cover every file on disk. The exhaustive field-value/varint sweep is a pure-input property and is not claimed.", "7 C17",
          "edit encode/decode totality over all field values (inputs quantifier) is NOT covered by this technique", "deterministic simulation: independent MANIFEST replay on simulated histories"),
+ "C02": ("fault_enumeration", "within each recorded multi-writer run every system-call boundary of the journal (stride-sampled above 260-400 boundaries, keeping everything adjacent to fsync/rename/unlink/create) is crashed under the power-loss model exactly as the property states it (minimal, directory-ahead-of-data, data-ahead-of-directory, torn tail incl. sector-aligned, random mixes); every image is recovered by the real ldb_open (paranoid both ways) and must contain every acknowledged sync batch and every acknowledged batch whose log had been unlinked; nested crashes inside recovery keep the same required set. Across runs: sampled.", "4.2, 7 C02",
+         "'has deleted the log file' is read as: the unlink call has returned; the file system model is the one in the property (directory operations persist as a prefix up to the last fsync of anything; file data as a prefix at least to the file's own last fsync), nothing stricter", "deterministic simulation: journal crash-point enumeration with power-loss image families"),
+ "C03": ("fault_enumeration", "same recorded runs, byte-exact OS image at every journal boundary (foreground writers and background compaction interleaved by the scheduler), recovered by the real ldb_open; contents must equal the fold, in original order, of all acknowledged batches plus possibly in-flight ones (marker key per batch, unique values); nested kill points inside recovery.", "4.2, 7 C03",
+         "a kill does not tear a completed write call; acknowledgement = the API call returned before the boundary", "deterministic simulation: journal crash-point enumeration with kill images"),
+ "C04": ("exploration", "crash half: batches of 1..1500 updates incl. records spanning several 32 KiB blocks and the 64 KiB write buffer; after every crash image the contents must equal a fold of whole batches (a partially applied batch cannot, because values are unique); group-commit records are decoded independently from the log bytes and must consist of whole member batches in per-writer order. The concurrent-visibility half (snapshot/iterator readers racing writers) is decided by the concurrency campaign of this check.", "7 C04",
+         "visibility half explored at lock/cond/atomic granularity under sampled schedules", "deterministic simulation: crash images + independent log decoding; concurrent snapshot readers under seeded schedules"),
+ "C05": ("fault_enumeration", "every crash image of the C02/C03 families: ldb_open must succeed with paranoid_checks 0 and 1; contents = fold of a subset of batches that is a prefix within every log segment; a second open is idempotent; a follow-up workload (new keys, overwrite and delete of recovered keys) must win and persist across another reopen (reuse_logs both ways); crashes inside recovery are judged the same way.", "6, 7 C05",
+         "batch-to-segment mapping comes from an independent decode of the journal's log bytes", "deterministic simulation: crash-point enumeration + post-recovery workload"),
 }
 NOT_APPLICABLE = [
  ("C16", "pure function of (entries, options): no schedule, clock, crash or I/O fault to search; tables produced by simulated histories are decoded independently as part of C14/C11/C19 but C16 itself is not claimed"),
  ("C18", "totality/memory safety on arbitrary bytes is quantified over inputs only (fuzzing, not fault/schedule search); disk-producible damage is exercised under ASan+UBSan by C11 but C18 is not claimed"),
 ]
-WIP = ["C02", "C03", "C04", "C05", "C08", "C09", "C10", "C11", "C12", "C15", "C19", "C20"]
+WIP = ["C08", "C09", "C10", "C11", "C12", "C15", "C19", "C20"]
 
 def main():
     checks = []
